@@ -302,7 +302,9 @@ add("C04",
     "uncached lookup comes from the first registry of `ro` that answers; inside it the required components are ordered first and, among the live provided "
     "interfaces that bind the name under the winning required path, the winner strictly extends none — the most general wins among comparable ones), C04_guard, "
     "C04_lookup_complete (a stored applicable adapter is never missed by the extendors short-cut). With C05_registry_transparent_lookup the cached lookup equals "
-    "the uncached one in every reachable state. Every implementation answer is also judged by an independent flat-specification oracle.",
+    "the uncached one in every reachable state. relookup_tabOk / relookup_tabOk_verifying (C04Relookup.lean): the table a RE-CREATED lookup object builds with "
+    "init_extendors for a registry that already holds registrations (unpickling a persistent registry; `relookup` in the driver and the correspondence) satisfies "
+    "the same invariant, the registration data untouched. Every implementation answer is also judged by an independent flat-specification oracle.",
     "Note: `_provided` counts registrations made, not entries stored (re-registering another value under a live key adds to the count without adding an entry, as in "
     "the code), so 'live' in these theorems is the code's own notion. None keys are registered as Interface (convNone), which C03_valid puts in every __sro__. The "
     "specification graph is static in the registry model; changes of it are covered by C05's abstract machine and the world correspondence.",
